@@ -58,7 +58,8 @@ func (s *SetWithTTL[T]) Contains(e T) bool {
 	if !ok {
 		return false
 	}
-	return item.After(s.Clock.Now())
+	// an item lives through its expiry instant, as cleanup (Members, Length) has it
+	return !item.Before(s.Clock.Now())
 }
 
 func (s *SetWithTTL[T]) cleanup() int {
